@@ -645,6 +645,59 @@ def run_prefixchar(ctx, case):
     finish_history(ctx, case, hist, problems)
 
 
+def gen_lateunit(rng, R):
+    u = rng.choice(SPLIT_UNITS)
+    return {"kind": "lateunit", "pre": bytes(rng.randrange(ord("a"), ord("z") + 1) for _ in range(rng.randint(2, 6))),
+            "unit": u, "cut": rng.randint(1, len(u) - 1),
+            "post": burst(rng, R, rng.choice([0, 0, 1, 5, 40])) if rng.random() < .6 else b"",
+            "mode": rng.choice(["bytes", "curtsies", "curses"])}
+
+
+def run_lateunit(ctx, case):
+    """the first bytes of a keypress sit in Input's buffer behind other keys; its remaining bytes
+    have arrived by the time decoding gets to it: it is reported as the one keypress it is"""
+    from curtsies import events
+    R = rig()
+    km = keysengine.modes()[case["mode"]]
+    first = case["pre"] + case["unit"][:case["cut"]]
+    rest = case["unit"][case["cut"]:] + case["post"]
+    R.pty.drain_slave()
+    inp = R.ci.Input(R.pty.stream, keynames=km, paste_threshold=None)
+    problems, got = [], []
+    try:
+        with inp:
+            if not R.pty.feed(first):
+                ctx.inconclusive_because("pty did not deliver within 5 s")
+                return
+            got.append(inp.send(0))          # reads `first` into the buffer, returns its first key
+            if not R.pty.feed(rest):
+                ctx.inconclusive_because("pty did not deliver within 5 s")
+                return
+            for _ in range(len(first) + len(rest) + 3):
+                e = inp.send(0)
+                if e is None:
+                    break
+                got.append(e)
+    except Exception as ex:  # noqa
+        problems.append(("raise", {"exception": [type(ex).__name__, str(ex)[:100]]}))
+    if not problems:
+        try:
+            want = drive(events.get_key, [first + rest], "utf-8", km)
+        except Exception:
+            want = None
+        if want is not None and got != want:
+            i = next((j for j, (a, b) in enumerate(zip(got, want)) if a != b), min(len(got), len(want)))
+            problems.append(("keypress-arrived-meanwhile-broken-up", {"first_difference_at_key": i, "expected": want[i:i + 3],
+                                                                      "got": got[i:i + 4]}))
+    sig = ("C08", "lateunit", repr(case))
+    ctx.count("late_unit_histories")
+    if not problems:
+        ctx.judge(True, case, sig)
+    else:
+        mech, detail = problems[0]
+        ctx.judge(False, case, sig, "C08:" + mech, None, detail)
+
+
 def run_flood(ctx, case):
     """tens of kilobytes written by another thread while the requesting thread keeps asking:
     the kernel hands the burst out in pieces of its own choosing (4095 bytes at most), so
@@ -1047,6 +1100,8 @@ def run_case(ctx, case):
         run_flood(ctx, case)
     elif case["kind"] == "prefixchar":
         run_prefixchar(ctx, case)
+    elif case["kind"] == "lateunit":
+        run_lateunit(ctx, case)
     elif case["kind"] == "split":
         run_split(ctx, case)
 
@@ -1071,6 +1126,8 @@ def run(ctx):
     for _ in range(ctx.share(200 if quick else 8000)):
         run_split(ctx, gen_split(rng, R))
         ctx.count("split_keypress_histories")
+    for _ in range(ctx.share(160 if quick else 6000)):
+        run_lateunit(ctx, gen_lateunit(rng, R))
     for _ in range(ctx.share(120 if quick else 5000)):
         run_prefixchar(ctx, gen_prefixchar(rng, R))
         ctx.count("prefix_then_character_histories")
